@@ -529,7 +529,7 @@ func runSeqCase(c *run.Ctx, cs *SeqCase, st *seqStats, shrink bool) bool {
 		return true
 	}
 	ops := cs.Ops[:v.at+1]
-	if shrink {
+	if shrink && reported(v.class) < 2 {
 		ops = shrinkSeq(u, ops, v.class)
 		var tmp seqStats
 		if v2 := execSeq(u, ops, &tmp); v2 != nil && v2.class == v.class {
@@ -538,8 +538,7 @@ func runSeqCase(c *run.Ctx, cs *SeqCase, st *seqStats, shrink bool) bool {
 	}
 	w := &SeqCase{Mon: "seq", Kind: cs.Kind, U: cs.U, Ops: ops}
 	w.What = v.msg + " | sequence: " + fmtOps(ops) + " | universe: " + fmtUniverse(cs.U, ops)
-	c.Stat("violations "+v.class, 1)
-	c.Violation(v.class, w.What, w)
+	report(c, v.class, w.What, w)
 	return false
 }
 
